@@ -3,6 +3,7 @@ import JaqVerif.C14.Yaml
 import JaqVerif.C14.Tabular
 import JaqVerif.C14.Cbor
 import JaqVerif.C14.Toml
+import JaqVerif.C14.Xml
 
 namespace Jaq.Driver.C14
 
@@ -103,6 +104,97 @@ def showTomlErr : Except Toml.WErr Unit → String
 
 def noFloat (_ : UInt64) : List UInt8 := [63]
 
+
+/-! XML tokens: `D:<ver>:<enc?>:<y|n|~>` `P:<target>:<content?>` `C:<h>` `M:<h>` `T:<h>` `S:<p>:<l>` `A:<p>:<l>:<v>`
+`O` `E` `Z:<p>:<l>` `X:<name>:<ext>:<internal>` `x` `Y:<name>:<ext>` `N` `L`; `<h>` = hex or `-` (empty),
+`?` fields: `~` = absent; `<ext>` = `~` | `s<h>` | `p<h>,<h>` -/
+
+def unhexOpt (t : String) : Option (Option (List UInt8)) := if t == "~" then some none else (unhex t).map some
+
+def xmlExt (t : String) : Option (Option Xml.Ext) :=
+  match t.toList with
+  | ['~'] => some none
+  | 's' :: cs => (unhex (String.ofList cs)).map fun l => some (.system l)
+  | 'p' :: cs =>
+    match (String.ofList cs).splitOn "," with
+    | [a, b] => match unhex a, unhex b with
+      | some a, some b => some (some (.pub a b))
+      | _, _ => none
+    | _ => none
+  | _ => none
+
+def xmlTok (t : String) : Option Xml.Tok :=
+  match t.splitOn ":" with
+  | ["D", v, e, s] =>
+    match unhex v, unhexOpt e with
+    | some v, some e =>
+      if s == "~" then some (.decl v e none) else if s == "y" then some (.decl v e (some true))
+      else if s == "n" then some (.decl v e (some false)) else none
+    | _, _ => none
+  | ["P", t, c] => match unhex t, unhexOpt c with
+    | some t, some c => some (.pi t c)
+    | _, _ => none
+  | ["C", h] => (unhex h).map .cdata
+  | ["M", h] => (unhex h).map .comment
+  | ["T", h] => (unhex h).map .text
+  | ["S", p, l] => match unhex p, unhex l with
+    | some p, some l => some (.estart p l)
+    | _, _ => none
+  | ["A", p, l, v] => match unhex p, unhex l, unhex v with
+    | some p, some l, some v => some (.attr p l v)
+    | _, _, _ => none
+  | ["O"] => some .eopen
+  | ["E"] => some .eempty
+  | ["Z", p, l] => match unhex p, unhex l with
+    | some p, some l => some (.eclose p l)
+    | _, _ => none
+  | ["X", n, e, i] => match unhex n, xmlExt e, unhex i with
+    | some n, some e, some i => some (.dtdStart n e i)
+    | _, _, _ => none
+  | ["x"] => some .dtdEnd
+  | ["Y", n, e] => match unhex n, xmlExt e with
+    | some n, some e => some (.emptyDtd n e)
+    | _, _ => none
+  | ["N"] => some .entity
+  | ["L"] => some .lexerr
+  | _ => none
+
+def showXErr : Xml.Err → String
+  | .lex => "lex" | .unmatched => "unmatched" | .unclosed => "unclosed" | .panic => "panic" | .fuel => "fuel" | .eof => "eof"
+
+def showXParse : Except Xml.Err (List Val) → String
+  | .ok vs => "V " ++ showVal (.arr vs)
+  | .error e => "E " ++ showXErr e
+
+def xmlParse (toks : List String) : String :=
+  match toks.mapM xmlTok with
+  | none => "bad-request"
+  | some ts => showXParse (Xml.parseMany ts)
+
+/-- does every attribute value satisfy the precondition of the `render` contract? -/
+partial def xmlAttrsOk : Xml.Xml → Bool
+  | .tac _ a c => a.all (fun e => Xml.attrValueOk Xml.attrQuoteFixedActive e.2) && (match c with | some c => xmlAttrsOk c | none => true)
+  | .seq l => l.all xmlAttrsOk
+  | .xmldecl a => a.all (fun e => Xml.attrValueOk Xml.attrQuoteFixedActive e.2)
+  | _ => true
+
+def xmlWrite (v : Val) : String :=
+  match Xml.ofVal v with
+  | .error .entry => "E entry"
+  | .error .singleton => "E singleton"
+  | .ok x => match Xml.write Xml.attrQuoteFixedActive x with
+    | some b => "W " ++ hexOr b
+    | none => "-"
+
+/-- `fromxml` of `toxml`: the model reader on the tokens of what the model writer emits; `Q` when an
+attribute value contains the quote it is written between (outside the tokenizer contract) -/
+def xmlRt (v : Val) : String :=
+  match Xml.ofVal v with
+  | .error _ => "E write"
+  | .ok x =>
+    if !xmlAttrsOk x then "Q" else
+    showXParse (Xml.parseMany (Xml.render (fun _ => []) x))
+
 def handlers : List (String × Handler) := [
   ("c14.ymq", fun toks => withBytes toks fun s => if Yaml.mustQuoteActive s then "Q" else "P"),
   ("c14.ymqfixed", fun toks => withBytes toks fun s => if Yaml.mustQuoteFixed s then "Q" else "P"),
@@ -128,7 +220,16 @@ def handlers : List (String × Handler) := [
     match vs with
     | [v] => showTomlErr (Toml.checkRoot Toml.fixedActive v)
     | _ => "bad-request"),
-  ("c14.tomlkey", fun toks => withBytes toks fun k => if Toml.keyIsBare Toml.fixedActive k then "B" else "Q")
+  ("c14.tomlkey", fun toks => withBytes toks fun k => if Toml.keyIsBare Toml.fixedActive k then "B" else "Q"),
+  ("c14.xmlparse", xmlParse),
+  ("c14.xmlwrite", fun toks => withVals 1 toks fun vs =>
+    match vs with
+    | [v] => xmlWrite v
+    | _ => "bad-request"),
+  ("c14.xmlrt", fun toks => withVals 1 toks fun vs =>
+    match vs with
+    | [v] => xmlRt v
+    | _ => "bad-request")
 ]
 
 end Jaq.Driver.C14
